@@ -57,9 +57,13 @@ static const char *model_creator (const char *name /* no leading slash */) {
   if (!strncmp (name, "bb/", 3)) return "BB";
   return "Root";
 }
+/* 1 approved, 0 refused, -1 the master raises an error, -2 the master has no valid_seteuid(): neither is an approval */
 static int model_valid_seteuid (wobj *x, const char *n) {
   if (pol_vs == 0) return 0;
   if (pol_vs == 1) return 1;
+  if (pol_vs == 3) return -1;
+  if (pol_vs == 4 && !strcmp (n, "Root")) return -1;
+  if (pol_vs == 5) return -2;
   return !strcmp (n, x->uid);
 }
 
@@ -225,13 +229,20 @@ static void op_seteuid (int xa, int v) {
   vx_obs ("%s", desc);
   if (n) push_constant_string (n); else push_number (0);
   svalue_t *r = hx_apply (x->ob, "do_seteuid", 1);
-  if (!r) { fail_hist ("C20:seteuid-error", "%s raised %s", desc, hx_last_error); return; }
-  long ret = r->type == T_NUMBER ? (long) r->u.number : -1;
-  int ok = 1;
-  if (n) { expect ("valid_seteuid(/%s,%s)", x->name, n); ok = model_valid_seteuid (x, n); }
+  int verdict = n ? model_valid_seteuid (x, n) : 1;
+  int ok = verdict == 1;
+  if (n && verdict != -2) expect ("valid_seteuid(/%s,%s)", x->name, n);
   if (ok) { snprintf (x->euid, sizeof x->euid, "%s", n ? n : ""); vx_count (C_SETEUID_OK, 1); } else vx_count (C_SETEUID_REFUSED, 1);
-  vx_obs ("  -> %ld", ret);
-  if (ret != ok) fail_hist (ok ? "C20:seteuid-refused-although-approved" : "C20:seteuid-succeeded-although-refused", "%s returned %ld, master policy says %d", desc, ret, ok);
+  if (!r) {
+    /* an error is an acceptable way of not changing the euid only when the master itself raised it */
+    vx_obs ("  -> error %s", hx_last_error);
+    if (verdict != -1) fail_hist ("C20:seteuid-error", "%s raised %s", desc, hx_last_error);
+  } else {
+    long ret = r->type == T_NUMBER ? (long) r->u.number : -1;
+    vx_obs ("  -> %ld", ret);
+    if (ret != ok) fail_hist (ok ? "C20:seteuid-refused-although-approved" : verdict == 0 ? "C20:seteuid-succeeded-although-refused" : verdict == -1 ? "C20:seteuid-succeeded-although-master-raised-error" : "C20:seteuid-succeeded-without-valid_seteuid",
+                              "%s returned %ld, master policy says %d", desc, ret, ok);
+  }
   check_master_log (desc);
 }
 
@@ -262,6 +273,7 @@ static void op_export (int xa, int ya) {
 static int cmp_desc (const void *a, const void *b) { return strcmp ((const char *) a, (const char *) b); }
 /* actors A0..A3 are interchangeable (every op is offered for every actor, the oracle does not depend on the slot):
    their descriptors are sorted, so that states equal up to a permutation of the slots merge */
+static int master_nv;
 static int canon (char *b, int len, int step) {
   char d[NACT][48];
   int n = snprintf (b, len, "s%d p%d%d|", step, pol_vs, pol_cf);
@@ -280,12 +292,18 @@ static int canon (char *b, int len, int step) {
 static void body (void) {
   char cb[400];
   int cfg = (int) vx_opt_long ("cfg", -1);
-  if (cfg < 0) cfg = vx_choose_free ((int) vx_opt_long ("ncfg", 12), "policy");
+  if (cfg < 0) cfg = vx_choose_free ((int) vx_opt_long ("ncfg", 14), "policy");
   /* order: creator_file by-directory, always-BB, returns 0, returns a non-string; each x valid_seteuid own / approve / refuse */
-  { static const int cf_order[4] = { 0, 3, 1, 2 }, vs_order[3] = { 2, 1, 0 }; pol_vs = vs_order[cfg % 3]; pol_cf = cf_order[cfg / 3]; }
+  /* 12, 13: valid_seteuid raises an error for every request / own-uid-only but raises for "Root" (creator_file by-directory) */
+  { static const int cf_order[4] = { 0, 3, 1, 2 }, vs_order[3] = { 2, 1, 0 };
+    if (cfg >= 12) { pol_vs = cfg == 12 ? 3 : 4; pol_cf = 0; } else { pol_vs = vs_order[cfg % 3]; pol_cf = cf_order[cfg / 3]; } }
+  if (master_nv) pol_vs = 5;        /* the master does not define valid_seteuid() at all */
   /* initial actors are loaded by the driver itself (no current object): uid = creator, euid 0 */
   set_policy_n ("log_uid", 1);
-  if (pol_vs == 2) set_policy_s ("valid_seteuid", "own"); else set_policy_n ("valid_seteuid", pol_vs);
+  if (pol_vs == 2) set_policy_s ("valid_seteuid", "own");
+  else if (pol_vs == 3) set_policy_s ("valid_seteuid", "raise");
+  else if (pol_vs == 4) set_policy_s ("valid_seteuid", "raise-root");
+  else if (pol_vs < 2) set_policy_n ("valid_seteuid", pol_vs);
   if (pol_cf == 1) set_policy_n ("creator_file_ret", 0);
   else if (pol_cf == 2) { push_constant_string ("creator_file_ret"); push_refed_array (allocate_array (0)); hx_apply (master_ob, "set_policy", 2); }
   else if (pol_cf == 3) set_policy_s ("creator_file_ret", "BB");
@@ -301,7 +319,7 @@ static void body (void) {
   }
   check_master_log ("initial loads");
   first_new = 0; check_world ("after initial loads", 1);
-  vx_obs ("policy: valid_seteuid=%s creator_file=%s", pol_vs == 0 ? "refuse" : pol_vs == 1 ? "approve" : "own-uid-only",
+  vx_obs ("policy: valid_seteuid=%s creator_file=%s", pol_vs == 0 ? "refuse" : pol_vs == 1 ? "approve" : pol_vs == 2 ? "own-uid-only" : pol_vs == 3 ? "raises an error" : pol_vs == 4 ? "own-uid-only, raises for Root" : "not defined in the master",
           pol_cf == 0 ? "by-directory" : pol_cf == 1 ? "returns 0" : pol_cf == 2 ? "returns an array" : "always BB");
 
   for (int step = 0; step < depth; step++) {
@@ -338,7 +356,7 @@ static void body (void) {
   vx_count (C_HIST, 1);
 }
 
-static void patch (void) { CONFIG_STR (__MASTER_FILE__) = "/c20/master.c"; }
+static void patch (void) { CONFIG_STR (__MASTER_FILE__) = master_nv ? "/c20/master_nv.c" : "/c20/master.c"; }
 
 int main (int argc, char **argv) {
   char mud[PATH_MAX];
@@ -347,6 +365,7 @@ int main (int argc, char **argv) {
   depth = (int) vx_opt_long ("depth", 3);
   selftest = (int) vx_opt_long ("selftest", 0);
   keep_going = (int) vx_opt_long ("keep-going", 0);
+  master_nv = (int) vx_opt_long ("master-nv", 0);
   nkinds = (int) vx_opt_long ("kinds", 3);       /* 2 = load_object, clone_object; 3 = + call_other on a file name */
   hx_boot (mud, "", patch);
   vx_count_name (C_HIST, "histories_completed");
